@@ -778,14 +778,54 @@ func (a *analysis) stmtOf(f *fn, n ast.Node) ast.Node {
 	return nil
 }
 
+// dropped: `_ = call(...)` or a bare call statement. Acceptable only as a
+// best-effort courtesy on a path that is already failing: the statements that
+// follow in the block are further dropped calls or I/O-free statements, ending
+// in a non-nil error return.
 func (a *analysis) dropped(s *site, visiting map[*site]bool) string {
 	f := s.f
 	st := a.stmtOf(f, s.call)
 	if st == nil || a.inLoop(f, s.call) != nil {
 		return "EDropped"
 	}
-	if a.nextOK(f, st, nil, visiting) {
-		return "(ESwallowNext true)"
+	blk, ok := f.parents[st].(*ast.BlockStmt)
+	if !ok {
+		return "EDropped"
+	}
+	fnNode := a.nearestFunc(f, s.call)
+	after := false
+	for _, x := range blk.List {
+		if ast.Node(x) == st {
+			after = true
+			continue
+		}
+		if !after {
+			continue
+		}
+		if r, ok := x.(*ast.ReturnStmt); ok {
+			if len(a.sitesIn(f, r)) == 0 && a.returnsNonNilErr(f, r, fnNode) {
+				return "(ESwallowNext true)"
+			}
+			return "EDropped"
+		}
+		for _, other := range a.sitesIn(f, x) {
+			par := f.parents[other.call]
+			dropStmt := false
+			switch p := par.(type) {
+			case *ast.ExprStmt:
+				dropStmt = true
+			case *ast.AssignStmt:
+				dropStmt = true
+				for _, l := range p.Lhs {
+					if id, ok := l.(*ast.Ident); !ok || id.Name != "_" {
+						dropStmt = false
+					}
+				}
+			}
+			if !dropStmt {
+				return "EDropped"
+			}
+		}
 	}
 	return "EDropped"
 }
